@@ -213,3 +213,143 @@ func VerifHarness_C01_rt_shape() {
 		verifRoundTrip(p, c, td, "C01.rt")
 	}
 }
+
+// VerifHarness_C03_rt_mix: BATCHES batches of METRICS metrics (distinct concrete names) whose TYPE is symbolic
+// (gauge, sum, histogram, exponential histogram, summary), each with POINTS data points (distinct concrete
+// times, concrete values) carrying 0..1 attribute (fixed key, symbolic one-byte value): mixed types in one
+// batch, several points per metric, several metrics per batch — the parent-id chains metric -> data point ->
+// attributes across rows, record types and batches.
+func VerifHarness_C03_rt_mix() {
+	p, c := verifProducer(), verifConsumer()
+	verifAhead = rt.Param("AHEAD") == 1
+	defer verifFlushAhead()
+	for b := 0; b < rt.Param("BATCHES"); b++ {
+		md := pmetric.NewMetrics()
+		sm := md.ResourceMetrics().AppendEmpty().ScopeMetrics().AppendEmpty()
+		for k := 0; k < rt.Param("METRICS"); k++ {
+			m := sm.Metrics().AppendEmpty()
+			m.SetName(string([]byte{'m', byte('0' + k)}))
+			kind := rt.Int("kind")
+			rt.Assume(kind >= 1)
+			rt.Assume(kind <= 5)
+			for i := 0; i < rt.Param("POINTS"); i++ {
+				ts := pcommon.Timestamp(100 + 10*k + i)
+				switch kind {
+				case 1:
+					if i == 0 {
+						m.SetEmptyGauge()
+					}
+					dp := m.Gauge().DataPoints().AppendEmpty()
+					dp.SetTimestamp(ts)
+					dp.SetIntValue(int64(i + 1))
+					verifOptAttr(dp.Attributes(), "dp.attr", "k")
+				case 2:
+					if i == 0 {
+						m.SetEmptySum().SetIsMonotonic(true)
+					}
+					dp := m.Sum().DataPoints().AppendEmpty()
+					dp.SetTimestamp(ts)
+					dp.SetDoubleValue(1.5)
+					verifOptAttr(dp.Attributes(), "dp.attr", "k")
+				case 3:
+					if i == 0 {
+						m.SetEmptyHistogram().SetAggregationTemporality(pmetric.AggregationTemporalityDelta)
+					}
+					dp := m.Histogram().DataPoints().AppendEmpty()
+					dp.SetTimestamp(ts)
+					dp.SetCount(3)
+					dp.SetSum(2.5)
+					dp.BucketCounts().FromRaw([]uint64{1, 2})
+					dp.ExplicitBounds().FromRaw([]float64{5})
+					verifOptAttr(dp.Attributes(), "dp.attr", "k")
+				case 4:
+					if i == 0 {
+						m.SetEmptyExponentialHistogram().SetAggregationTemporality(pmetric.AggregationTemporalityCumulative)
+					}
+					dp := m.ExponentialHistogram().DataPoints().AppendEmpty()
+					dp.SetTimestamp(ts)
+					dp.SetCount(4)
+					dp.SetScale(1)
+					dp.Positive().SetOffset(1)
+					dp.Positive().BucketCounts().FromRaw([]uint64{4})
+					verifOptAttr(dp.Attributes(), "dp.attr", "k")
+				default:
+					if i == 0 {
+						m.SetEmptySummary()
+					}
+					dp := m.Summary().DataPoints().AppendEmpty()
+					dp.SetTimestamp(ts)
+					dp.SetCount(2)
+					dp.SetSum(3)
+					q := dp.QuantileValues().AppendEmpty()
+					q.SetQuantile(0.5)
+					q.SetValue(1.25)
+					verifOptAttr(dp.Attributes(), "dp.attr", "k")
+				}
+			}
+		}
+		verifRoundTripMetrics(p, c, md, "C03.rt")
+	}
+}
+
+// verifSkippable puts into m one attribute the encoder may skip — symbolic choice among a regular one, one with
+// an empty key, one with an unset value — followed by a regular attribute.
+func verifSkippable(m pcommon.Map, tag string) {
+	k := rt.Int(tag + ".kind")
+	rt.Assume(k >= 0)
+	rt.Assume(k <= 2)
+	switch k {
+	case 0:
+		m.PutStr("a", "v")
+	case 1:
+		m.PutStr("", "v")
+	default:
+		m.PutEmpty("a")
+	}
+	m.PutInt("z", 1)
+}
+
+// VerifHarness_C15_input_skipped: inputs whose resource / scope / record attribute maps hold attributes the
+// encoder skips (empty key, unset value): SIGNAL 0 traces, 1 logs, 2 metrics (resource, scope, data point).
+func VerifHarness_C15_input_skipped() {
+	p, c := verifProducer(), verifConsumer()
+	switch rt.Param("SIGNAL") {
+	case 0:
+		td := ptrace.NewTraces()
+		rs := td.ResourceSpans().AppendEmpty()
+		verifSkippable(rs.Resource().Attributes(), "res")
+		ss := rs.ScopeSpans().AppendEmpty()
+		verifSkippable(ss.Scope().Attributes(), "scope")
+		sp := ss.Spans().AppendEmpty()
+		sp.SetSpanID(pcommon.SpanID{1})
+		sp.SetTraceID(pcommon.TraceID{1})
+		verifSkippable(sp.Attributes(), "span")
+		verifSkippable(sp.Events().AppendEmpty().Attributes(), "event")
+		verifSkippable(sp.Links().AppendEmpty().Attributes(), "link")
+		verifRoundTrip(p, c, td, "C01.rt")
+	case 1:
+		ld := plog.NewLogs()
+		rl := ld.ResourceLogs().AppendEmpty()
+		verifSkippable(rl.Resource().Attributes(), "res")
+		sl := rl.ScopeLogs().AppendEmpty()
+		verifSkippable(sl.Scope().Attributes(), "scope")
+		lr := sl.LogRecords().AppendEmpty()
+		lr.SetSpanID(pcommon.SpanID{1})
+		verifSkippable(lr.Attributes(), "record")
+		verifRoundTripLogs(p, c, ld, "C02.rt")
+	default:
+		md := pmetric.NewMetrics()
+		rm := md.ResourceMetrics().AppendEmpty()
+		verifSkippable(rm.Resource().Attributes(), "res")
+		sm := rm.ScopeMetrics().AppendEmpty()
+		verifSkippable(sm.Scope().Attributes(), "scope")
+		m := sm.Metrics().AppendEmpty()
+		m.SetName("g")
+		dp := m.SetEmptyGauge().DataPoints().AppendEmpty()
+		dp.SetIntValue(1)
+		dp.SetTimestamp(pcommon.Timestamp(100))
+		verifSkippable(dp.Attributes(), "point")
+		verifSkippable(dp.Exemplars().AppendEmpty().FilteredAttributes(), "exemplar")
+		verifRoundTripMetrics(p, c, md, "C03.rt")
+	}
+}
